@@ -38,6 +38,18 @@ CLAIMS = {
         "Trusted: class-to-struct name map (frozen, by class name); annotation-driven types (Any-typed values are treated as not encodable as str/int).",
         "DESIGN.md §4 C12",
     ),
+    "C20": (
+        "structural rules on FcpV2.merge (field inventory from the class body) and on the import callback: def-use provenance of the module path and of the nested transformer's root, CFG must-pass-through of the merge, error-branch provenance",
+        "Structural: merge concatenates every List[...] declaration field of FcpV2 unconditionally and in order; the module path derives from all dotted components joined as a path + '.fcp' under the importing file's directory; the nested transformer is rooted at the imported file; the attempted nested result is merged on every success path; each failure branch mentions the module file. These are necessary conditions of split-schema == single-file schema for every split; equality of the resulting trees additionally relies on C07/C08 rules.",
+        "Trusted: handler coverage at the nested parse/transform sites is C11's; pathlib semantics.",
+        "DESIGN.md §4 C20",
+    ),
+    "C08": (
+        "return-path extraction with normalised path conditions (control dependence of StructType/EnumType on the matching lookup), writer inventory of the accumulated declaration lists, Result-child discipline from grammar child kinds x callback return annotations",
+        "Structural: in the composed-type callback a struct (enum) tag is returned only on paths with a positive struct (enum) lookup of the same name in the tree accumulated so far, and the remaining path returns an error carrying the name and a position; the lookups are exact-name searches; the declaration lists are appended only by their declaring callbacks and the import merge (so, with lark's bottom-up left-to-right traversal, declare-before-use and no self reference); every Result-valued child is attempt()ed under @catch or is_err()-tested before unwrap, never stored raw or dropped; the struct callback's chained message names the struct.",
+        "Trusted: lark Transformer traversal order; grammar child kinds as computed from the grammar extracted from parser.py.",
+        "DESIGN.md §4 C08",
+    ),
 }
 
 NOT_BUILT = "check not built yet in this session (see DESIGN.md §7 build order); not claimed until it exists"
